@@ -239,9 +239,9 @@ impl Manifest {
                 && final(self).sum() == gadd(gsub(old(self).sum(), gsum(edit@.rms)), gsum(edit@.adds)),
             r is Err ==> final(self).log() == old(self).log() && final(self).o() == old(self).o() && final(self).sum() == old(self).sum(),
     { unimplemented!() }
-    // `mani.info('O').and_then(Setsum::from_hexdigest).unwrap_or_default()`
+    // `mani.info(c).and_then(Setsum::from_hexdigest).unwrap_or_default()`: the 'O' info is the recorded output
     #[verifier::external_body]
-    fn output_or_default(&self) -> (r: Setsum) ensures r.g() == self.o() { unimplemented!() }
+    fn info_or_default(&self, c: char) -> (r: Setsum) ensures c == 'O' ==> r.g() == self.o() { unimplemented!() }
     // `mani.strs().any(|d| *d == setsum.hexdigest())`
     #[verifier::external_body]
     fn lists(&self, s: Setsum) -> (r: bool) { unimplemented!() }
@@ -587,7 +587,7 @@ fn recover_apply(mani: &mut Manifest, setsum: Setsum) -> (r: Result<(), SError>)
     Ok(())
 //@ >>
 //@ rewrite X7 `if !mani.strs().any(|d| *d == setsum.hexdigest()) {` => `if !mani.lists(setsum) {`
-//@ rewrite-re X7 `mani\s*\.info\('O'\)\s*\.and_then\(Setsum::from_hexdigest\)\s*\.unwrap_or_default\(\)` => `mani.output_or_default()`
+//@ rewrite-re X7 `mani\s*\.info\('(\w)'\)\s*\.and_then\(Setsum::from_hexdigest\)\s*\.unwrap_or_default\(\)` => `mani.info_or_default('\1')`
 //@ rewrite-re? X17 `Setsum::default\(\) - (\w+)\b` => `Setsum::default().sub(\1)`
 //@ rewrite-re? X17 `Setsum::default\(\) \+ (\w+)\b` => `Setsum::default().add(\1)`
 //@ rewrite-re? X17 `\b(\w+) - (\w+)\b` => `\1.sub(\2)`
